@@ -503,7 +503,12 @@ pub fn c04(cfg: &Config, tr: &Trace, an: &Analysis, out: &mut Vec<Violation>) {
                     tr.armed_at_end
                 ),
             )),
-            Anomaly::EscapedPanic(_) | Anomaly::PrefixDivergence(_) => {}
+            Anomaly::EscapedPanic(p) => out.push(v(
+                "C04",
+                "aborted-by-panic",
+                format!("the run was aborted by a panic ({p}): the stream never ends and queued scenarios are never attempted"),
+            )),
+            Anomaly::PrefixDivergence(_) => {}
         }
     }
     if tr.log.iter().any(|l| l.kind == LogKind::ParserPolledAfterEnd) {
@@ -1075,6 +1080,20 @@ pub fn c08(cfg: &Config, tr: &Trace, an: &Analysis, out: &mut Vec<Violation>) {
         }
     }
     if tr.ended {
+        let fins: Vec<usize> = tr
+            .events
+            .iter()
+            .enumerate()
+            .filter(|(_, e)| e.ev == Ev::Finished)
+            .map(|(i, _)| i)
+            .collect();
+        if fins.len() != 1 || fins[0] + 1 != tr.events.len() {
+            out.push(v(
+                "C08",
+                "run-finished",
+                format!("fail-fast: the run does not end with run-Finished (positions {fins:?} of {} items)", tr.events.len()),
+            ));
+        }
         for sc in &an.scens {
             for a in &sc.attempts {
                 if a.finished.is_none() {
@@ -1313,6 +1332,35 @@ pub fn c10(cfg: &Config, tr: &Trace, an: &Analysis, out: &mut Vec<Violation>) {
             break;
         }
     }
+    // a panic in one scenario leaves the others unaffected: every other started attempt
+    // still reaches its Finished event
+    let panicked: BTreeSet<&str> = tr
+        .log
+        .iter()
+        .filter_map(|l| match &l.kind {
+            LogKind::Exit { key, outcome, .. } if outcome.is_fail() => Some(key.as_str()),
+            _ => None,
+        })
+        .collect();
+    if tr.ended && !panicked.is_empty() {
+        for sc in &an.scens {
+            let own = own_keys(sc);
+            if own.iter().any(|k| panicked.contains(k.as_str())) {
+                continue;
+            }
+            if let Some(a) = sc.attempts.iter().find(|a| a.started.is_some() && a.finished.is_none()) {
+                out.push(v(
+                    "C10",
+                    "other-scenario-affected",
+                    format!(
+                        "user code of another scenario panicked and {}[{}] was started but never finished",
+                        sc.info.name, a.current
+                    ),
+                ));
+                break;
+            }
+        }
+    }
     if tr.sentinel_during > 0 {
         out.push(v(
             "C10",
@@ -1328,7 +1376,100 @@ pub fn c10(cfg: &Config, tr: &Trace, an: &Analysis, out: &mut Vec<Violation>) {
     }
 }
 
+/// Configurations that deliver the same feature (equal by value) more than
+/// once: scenario names are no longer unique, so the instances are told apart
+/// by their `Source` identity and a reduced set of oracles is evaluated.
+pub fn check_duplicates(cfg: &Config, tr: &Trace) -> Vec<Violation> {
+    let mut out = Vec::new();
+    for a in &tr.anomalies {
+        match a {
+            Anomaly::EscapedPanic(p) => {
+                out.push(v("C04", "aborted-by-panic", format!("the run was aborted by a panic ({p}): supplied scenarios are never attempted")));
+                out.push(v("C10", "escaped-panic", format!("panic escaped the run: {p}")));
+                out.push(v("C03", "run-finished", format!("the stream never reached run-Finished (panic {p})")));
+            }
+            Anomaly::Stuck { .. } | Anomaly::PollHorizon | Anomaly::IdleSpin(_) => {
+                out.push(v("C04", "stuck", format!("run did not terminate: {a:?}")));
+            }
+            Anomaly::PrefixDivergence(_) => {}
+        }
+    }
+    if !tr.ended {
+        return out;
+    }
+    // instances supplied: every occurrence of a feature item contributes its scenarios
+    let mut supplied = 0usize;
+    let mut feat_instances = 0usize;
+    for it in &cfg.items {
+        if let Item::Feat(i) = it {
+            let f = &cfg.feats[*i];
+            let n = f.scenarios.len() + f.rules.iter().map(|r| r.scenarios.len()).sum::<usize>();
+            supplied += n;
+            if n > 0 {
+                feat_instances += 1;
+            }
+        }
+    }
+    let mut per_instance: BTreeMap<usize, (usize, usize)> = BTreeMap::new();
+    for te in &tr.events {
+        if let Ev::Sc { ptrs, ev, .. } = &te.ev {
+            let e = per_instance.entry(ptrs.2).or_default();
+            match ev {
+                ScEv::Started => e.0 += 1,
+                ScEv::Finished => e.1 += 1,
+                _ => {}
+            }
+        }
+    }
+    if !cfg.fail_fast() && per_instance.len() != supplied {
+        out.push(v(
+            "C04",
+            "not-attempted",
+            format!("{supplied} scenario instances were supplied (a feature delivered twice), {} were attempted", per_instance.len()),
+        ));
+    }
+    if per_instance.values().any(|(s, f)| s != f) {
+        out.push(v("C02", "unfinished", "a scenario instance has a different number of Started and Finished events".into()));
+    }
+    let fs = tr.events.iter().filter(|e| matches!(e.ev, Ev::FeatStarted(_))).count();
+    let ff = tr.events.iter().filter(|e| matches!(e.ev, Ev::FeatFinished(_))).count();
+    if !cfg.fail_fast() && (fs != feat_instances || ff != feat_instances) {
+        out.push(v(
+            "C03",
+            "feature-bracket",
+            format!("{feat_instances} feature instances with scenarios were delivered, the stream has {fs} Started and {ff} Finished brackets"),
+        ));
+    }
+    if !matches!(tr.events.last().map(|e| &e.ev), Some(Ev::Finished)) {
+        out.push(v("C03", "run-finished", "run-Finished is not the last item".into()));
+    }
+    // limit
+    if let Some(k) = cfg.limit() {
+        let mut fl = 0i64;
+        for te in &tr.events {
+            match te.ev.scenario().map(|x| x.2) {
+                Some(ScEv::Started) => fl += 1,
+                Some(ScEv::Finished) => fl -= 1,
+                _ => {}
+            }
+            if fl > k as i64 {
+                out.push(v("C06", "over-limit", format!("{fl} attempts in flight with limit {k}")));
+                break;
+            }
+        }
+    }
+    out
+}
+
 pub fn check_all(cfg: &Config, tr: &Trace) -> Vec<Violation> {
+    let mut seen = BTreeSet::new();
+    let duplicates = cfg.items.iter().any(|it| match it {
+        Item::Feat(i) => !seen.insert(*i),
+        Item::Err(_) => false,
+    });
+    if duplicates {
+        return check_duplicates(cfg, tr);
+    }
     let an = analyse(cfg, tr);
     let mut out = Vec::new();
     c02(cfg, tr, &an, &mut out);
